@@ -11,7 +11,8 @@ RULE = ("each case runs a structure (repository proteins, cut-outs, chimeras wit
         "non-ionizable partners (ROH/AMD/TRP) are identical (the environment is unchanged); "
         "(d) L = all residues is equivalent to no option; (e) adding non-existent entries changes "
         "nothing. Non-trivial: L is a proper non-empty subset holding >= 1 site and the complement holds "
-        ">= 1 site; distinct = distinct (input digest, list).")
+        ">= 1 site; distinct = distinct (input digest, list)."
+        " Multi-file cases: propka.run.main with 2-3 files and one -i list naming residues of each; every file must come out as when run on its own with that list.")
 ASSUMPTIONS = ["blank chain identifiers are avoided: the option has no syntax for them",
                "Coulomb and iterative side-chain terms between a listed and an unlisted group are not compared "
                "with the unrestricted run (they legitimately differ: the unlisted group no longer titrates)"]
